@@ -671,13 +671,16 @@ func unitHdrBytes(w *casefile.Writer, r *rng.R, tmp string, n int) {
 		var want []any
 		off := uint64(16)
 		for b := 0; b < k; b++ {
-			if r.Chance(1, 5) {
+			if b > 0 && r.Chance(1, 5) { // block 0 is the info block in every real index file: never empty
 				bw.WriteEmptyBlock()
 				hs = append(hs, "mkHdrB 0 0 0 0 0 0")
 				want = append(want, "empty")
 				continue
 			}
 			data := make([]byte, r.Intn(40))
+			if b == 0 {
+				data = make([]byte, r.Range(1, 40))
+			}
 			for j := range data {
 				data[j] = byte(r.Intn(256))
 			}
@@ -728,9 +731,9 @@ func unitBytes(w *casefile.Writer, r *rng.R, k int) {
 	unitVarint(w, r.Fork(), 300*k)
 	unitVarintDec(w, r.Fork(), 250*k)
 	unitFixed(w, r.Fork(), 100*k)
-	unitChunksBytes(w, r.Fork(), 300*k)
-	unitIDsBytes(w, r.Fork(), tmp, 160*k)
-	unitTokBytes(w, r.Fork(), 160*k)
-	unitTabBytes(w, r.Fork(), tmp, 80*k)
+	unitChunksBytes(w, r.Fork(), 200*k)
+	unitIDsBytes(w, r.Fork(), tmp, 100*k)
+	unitTokBytes(w, r.Fork(), 110*k)
+	unitTabBytes(w, r.Fork(), tmp, 60*k)
 	unitHdrBytes(w, r.Fork(), tmp, 90*k)
 }
